@@ -697,7 +697,7 @@ def one_case(ctx, rng, idx):
                     if ref["dump"][first_sect] != obs["dump"][first_sect]:
                         diffs = dump.diff({first_sect: ref["dump"][first_sect]}, {first_sect: obs["dump"][first_sect]}, limit=4)
                         break
-                sect = diffs[0].split("/")[1] if diffs and "/" in diffs[0] else "?"
+                sect = diffs[0].split("/")[1].split(":")[0] if diffs and "/" in diffs[0] else "?"
                 sub = diffs[0].split("/")[2].split(":")[0] if sect in ("lengths", "columns", "vectors") and diffs[0].count("/") >= 2 else ""
                 ctx.fail("c06.dump", "dump.%s%s" % (sect, (":" + sub) if sub else ""), w, "reference (left) vs history (right): " + " || ".join(diffs))
             # (2) model
